@@ -12,11 +12,15 @@
      x_query start end        : tree-sitter's verdict on source[start..end] ++ "@__tsg__full_match",
                                 keyed by the byte span that the model's own skip_query computes;
      x_merged src             : does the merged file query compile (Query::new(..).unwrap() at the end);
-     x_regex pat              : Regex::new(pat).is_ok().
+     x_regex pat              : Regex::new(pat).is_ok();
+     x_print                  : <str as Debug> on NON-ASCII code points: printed verbatim (true) or as \u{..} (the table
+                                `Pretty.pe_print`); only read by `display_variable` (Model/VarDisplay.v) for the text field of
+                                `SNode` — the real AST has no such field, harness/src/dump.rs fills it with
+                                `format!("{}", node)`, which is what the interpreters print into the debug attribute.
    A `None` answer of x_query / x_merged / x_regex is RMiss (ORACLE_MISS), never an agreement.
 
    Definitions only. *)
-From TSG Require Export Model.Ast.
+From TSG Require Export Model.Ast Model.VarDisplay.
 
 (* ------------------------------------------------------------------ characters *)
 Definition utf8_len (c : N) : N :=
@@ -37,6 +41,7 @@ Record ext := {
   x_query : N -> N -> option qverdict;
   x_merged : str -> option bool;
   x_regex : str -> option bool;
+  x_print : list (N * bool);
 }.
 
 (* ------------------------------------------------------------------ errors, state, monad *)
@@ -617,7 +622,7 @@ Section Parser.
       else if str_eqb keyword t_set then
         (p <- assignment_tail ;; ret (SSet (fst p) (snd p) keyword_location))
       else if str_eqb keyword t_node then
-        (node <- parse_variable ;; ret (SNode node [] keyword_location))
+        (node <- parse_variable ;; ret (SNode node (display_variable (dpenv_of (x_print X)) node) keyword_location))
       else if str_eqb keyword t_edge then
         (source <- parse_expression ;;
          consume_whitespace ;;;
